@@ -4,6 +4,7 @@ from ..gen import scripts as S
 from ..gen import msgs as M
 from ..gen import wrappers as W
 from ..translate import arith2
+from ..translate import msgsrc
 
 SPEC = dict(
     manifest=dict(
@@ -26,14 +27,21 @@ SPEC = dict(
              '(init inline vs reference: the statements computing bits_left / refs_left / body_fits and the test `bits_left >= 0 and body_fits` of '
              'fix F17; body inline vs reference) are additionally re-translated from tlb/transaction.py on every run (Generated/MsgLayout.lean) and '
              'proved, for ALL integer budgets and sizes, to be the model\'s conditions (c15_src_layout_tests); initB / bodyB of the hand model are '
-             'proved to branch by exactly these regenerated decisions (c15_src_model_layout).',
+             'proved to branch by exactly these regenerated decisions (c15_src_model_layout). '
+             'The WHOLE deserialize methods of MessageAny, CommonMsgInfo, InternalMsgInfo, ExternalMsgInfo, ExternalOutMsgInfo, StateInit, TickTock, '
+             'CurrencyCollection, ExtraCurrencyCollection are regenerated from transaction.py / account.py / block.py on every run (Generated/MsgSrc.lean, '
+             'translator pytlb.py) and proved for ALL slices to BE the hand model\'s parsers (c15_src_deserialize), so c15_own_parser / c15_round_trip speak '
+             'about the regenerated parser (c15_src_roundtrip_partial); the serialize methods are regenerated and validated too, proved equal for the '
+             'leaf classes (c15_src_serialize_partial); the composite serialisers remain hand model + correspondence + the layout decision lines.',
         level_note='theorems are about the hand model; model = pytoniq-core only on the generated inputs (sampled). Dictionaries '
                    '(extra currencies, library, plugins, old_queries) are optional root references (dictionary contents are C09/C10). '
                    'bits256 fields must be 32 bytes: the library does not check the length (a shorter key serialises to a cell that is '
                    'not a valid value; shown as an example, outside the property). The dictionary a HighloadWalletData cell holds is compared '
                    'semantically (HashMap.parse for the structure, the spec decoder per value), its root cell being opaque to the theorems.',
         technique='Lean 4 proof (hand model) + differential correspondence with the library + source-regenerated layout decisions'),
-    translators=[('transaction.py MessageAny.serialize inline/reference decisions->Generated/MsgLayout.lean', arith2.regenerator('MsgLayout'))],
+    translators=[('transaction.py MessageAny.serialize inline/reference decisions->Generated/MsgLayout.lean', arith2.regenerator('MsgLayout')),
+                 ('transaction.py / account.py / block.py whole message serialize / deserialize methods->Generated/MsgSrc.lean', msgsrc.regenerate)],
+    lean_targets=['TonVerif.Proofs.SrcMsg'],
     design_ref='DESIGN.md §6 C15',
     rule='boundary sweep: header kind (internal / ext-in / ext-out) x extra-currency dict (0/1/many entries) x state-init shape '
          '(absent, 0..3 refs, split_depth, tick-tock) x body bits {0, 1, each exact inline limit -1/0/+1, 1023} x body refs 0..4, plus '
@@ -532,6 +540,16 @@ def src_search(ctx):
     model's; the boundary sweep that follows in `run` places bodies at every exact inline limit -1/0/+1 with 0..4 references behind
     every init shape, which is where such a difference shows as a message that does not serialise / decode."""
     arith2.search_points(ctx, ['MsgLayout'])
+    # the whole regenerated methods (Generated/MsgSrc.lean) against the hand model, evaluated by Lean on the requests of the boundary
+    # sweep / random messages / state-inits / currency collections; the differing requests are logged (the sweep that follows in
+    # `run` judges exactly these inputs with the property's oracle)
+    try:
+        reqs = [l for l, _ in msgsrc.harness_requests()]
+        diff = msgsrc.diff_requests(ctx, reqs)
+        for l in diff[:5]:
+            ctx.notes.append('regenerated != hand model on: ' + l[:40] + ' .. ' + l[-120:])
+    except Exception as e:
+        ctx.notes.append(f'source-diff search (MsgSrc) failed: {type(e).__name__}: {e}')
     return False
 
 
